@@ -39,8 +39,10 @@ class Ref:
     data[l][b] = object ndarray (nx, ny[, nz], nf), mins/maxs[l][b][f]."""
 
     def __init__(self, pid, ndims, fields, ncell0, boxes, layout=None, lo=None, dx0=None, time=0.5,
-                 steps=None, ref_line_extra=0, payload='sym', seed=0, nfiles_names=None):
+                 steps=None, ref_line_extra=0, payload='sym', seed=0, nfiles_names=None, level_prefix='Level_'):
         self.pid = pid
+        # the main Header names each level's directory ('<dir>/Cell'); AMReX lets the writer choose the prefix
+        self.level_prefix = level_prefix
         self.ndims = ndims
         self.fields = list(fields)
         self.nf = len(fields)
@@ -148,7 +150,7 @@ class Ref:
             for b in range(len(self.boxes[l])):
                 for (a, c) in self.box_phys(l, b):
                     L.append('%s %s' % (fmt_float(a), fmt_float(c)))
-            L.append('Level_%d/Cell' % l)
+            L.append('%s%d/Cell' % (self.level_prefix, l))
         return '\n'.join(L) + '\n'
 
     def cellh_text(self, l):
@@ -186,7 +188,7 @@ class Ref:
     def write_symfs(self, fs, path):
         fs.put_text(os.path.join(path, 'Header'), self.header_text())
         for l in range(self.nlev):
-            d = os.path.join(path, 'Level_%d' % l)
+            d = os.path.join(path, '%s%d' % (self.level_prefix, l))
             fs.put_text(os.path.join(d, 'Cell_H'), self.cellh_text(l))
             for fname, bl in self.files(l):
                 fs.put_bin(os.path.join(d, fname), self.binfile(l, fname))
